@@ -15,6 +15,8 @@ FORMATS = [None, 'listing', 'minhex', 'hex', 'intel_hex']
 FATAL = [('unresolvable label', 'ld8 undefined_label_xyz'), ('unresolvable label in a zero-length fill', '.fill 0, undefined_label_xyz'),
          ('unresolvable label in a fill count', '.fill undefined_label_xyz, 0'), ('unresolvable label in an expression', 'ld16 undefined_label_xyz + 1'), ('unresolvable label in data', '.byte undefined_label_xyz'),
          ('unknown instruction', 'zzqx 1'), ('statement no variant accepts', 'mov 5'), ('statement whose only operand is a disallowed combination', 'mvx b'),
+         ('statement with a trailing comma (an empty operand slot)', 'ld8 5,'), ('statement with a leading comma', 'ld8 ,5'), ('statement with a doubled comma', 'mov ,,a'),
+         ('branch beyond the configured maximum offset (a value its field cannot hold)', 'bre 230'),
          ('statement with an unpaired character quote', "ld8 '!"), ('statement with an unpaired quote before a comment', "ld8 'Z ; upper bound"),
          ('value its field cannot hold', 'ld8 300'), ('value its field cannot hold (negative)', 'ld8 0-129'),
          ('value its field cannot hold (16 bit)', 'ld16 65536'), ('value its field cannot hold (4 bit)', 'ld4 16'),
@@ -36,7 +38,7 @@ FATAL_FILES_CONTROL = [
     {'main.asm': 'glob1:\nnop\n#include "inc1.asm"\nld16 glob2\n', 'inc1.asm': 'glob2:\nld16 glob1\n_fil1:\nld16 _fil1\n'},
     {'main.asm': '_fil1:\nnop\n#include "inc1.asm"\nld16 _fil1\n', 'inc1.asm': '_fil1:\nld16 _fil1\n'},
 ]
-FATAL_OK_CONTROL = ['mvx a', "ld8 '!'", 'ld4 15', 'ld4 0-8', 'ld12 4095', 'ld12 0-2048', 'ld8 255', 'ld8 0-128']
+FATAL_OK_CONTROL = ['bre 100', 'mvx a', "ld8 '!'", 'ld4 15', 'ld4 0-8', 'ld12 4095', 'ld12 0-2048', 'ld8 255', 'ld8 0-128']
 
 
 def observe(case, cli=False):
